@@ -6,7 +6,6 @@ import (
 	"encoding/base64"
 	"encoding/json"
 	"fmt"
-	"os"
 	"sort"
 	"strings"
 	"sync"
@@ -203,6 +202,15 @@ func sinkByName(n string) (sink, bool) {
 		}
 	}
 	return sink{}, false
+}
+
+func sinkIndex(s sink) int {
+	for i, x := range append(append([]sink{}, cssSinks...), attrSinks...) {
+		if x.name == s.name {
+			return i
+		}
+	}
+	return -1
 }
 
 type rjob struct {
@@ -447,9 +455,7 @@ func rendered(c *core.Ctx, b *bag) {
 		}
 	}
 	// mapdirect cannot carry the sentinel names as hostile name
-	fmt.Fprintln(os.Stderr, "jobs built", len(jobs), time.Now())
 	res := e.run(c, jobs)
-	fmt.Fprintln(os.Stderr, "driver done", time.Now())
 	if res == nil {
 		return
 	}
@@ -494,7 +500,7 @@ func rendered(c *core.Ctx, b *bag) {
 			p := jobs[i].p
 			k := renderedGroup(jobs[i].sk) + "|" + classOf(p) + "|" + bit.String()
 			w := witness{p: p, v: jobs[i].v}
-			if cur, ok := raws[k]; !ok || less(w, witness{p: cur.j.p, v: cur.j.v}) || (!less(witness{p: cur.j.p, v: cur.j.v}, w) && jobs[i].sk.name < cur.j.sk.name) {
+			if cur, ok := raws[k]; !ok || less(w, witness{p: cur.j.p, v: cur.j.v}) || (!less(witness{p: cur.j.p, v: cur.j.v}, w) && sinkIndex(jobs[i].sk) < sinkIndex(cur.j.sk)) {
 				raws[k] = rawViol{jobs[i], bit}
 			}
 		}
@@ -519,7 +525,6 @@ func rendered(c *core.Ctx, b *bag) {
 			c.Sample(map[string]any{"sink": j.sk.name, "property": j.p, "value": j.v, "rendered": string(out), "css_seen_by_monitor": css, "verdict": map[bool]string{true: "held", false: verd[i].String()}[verd[i] == 0]})
 		}
 	}
-	fmt.Fprintln(os.Stderr, "judged", time.Now())
 	// reduce each bucket's smallest raw witness through the driver
 	var ks []string
 	for k := range raws {
